@@ -95,6 +95,9 @@ int main(int argc, char** argv) {
         else if (op == "observe") { r->observe(os, pfx); }
         else if (op == "probe") { int n; is >> n; r->lookup(os, pfx, n); }
         else if (op == "textgen") { r->textgen(os, pfx); }
+        else if (op == "callx") { int mi; is >> mi; r->callx(os, pfx, mi, rest()); }
+        else if (op == "mkvptr") { int n; is >> n; r->mkvptr(os, pfx, n); }
+        else if (op == "sethandler") { std::string w2; is >> w2; r->sethandler(os, pfx, w2); }
         else { std::cerr << "bad op: " << line << "\n"; return 2; }
     }
     os.flush();
